@@ -112,6 +112,17 @@ B32 = "bytes:32"
 
 
 def _gen_schnorr_sign(rng, tier):
+    # BIP340 masks the secret as a 32-byte STRING: t = bytes(d') xor hash_aux(aux) may exceed N as an integer
+    # (probability 2^-128 for random inputs), so construct such keys: d' = t xor hash_aux(aux), signing key d' or N - d'
+    import verif.specs as s
+    for t in (N - 1, N, N + 1, 2**256 - 1, N + 2**127):
+        for _ in range(40):
+            aux = rand_bytes(rng, 32)
+            dd = t ^ int.from_bytes(s.schnorr.tagged(b"BIP0340/aux", aux), "big")
+            if 1 <= dd < N and s.curve.has_even_y(s.curve.mul_G(dd)):      # dd is then the key BIP340 actually masks
+                yield {"d": dd, "msg": rand_bytes(rng, 32), "aux": aux}
+                yield {"d": N - dd, "msg": rand_bytes(rng, 32), "aux": aux}
+                break
     for d in _DS:
         for m in (bytes(32), b"\xff" * 32, rand_bytes(rng, 32)):
             yield {"d": d, "msg": m, "aux": bytes(32)}
